@@ -25,7 +25,10 @@ def run(tier):
                 ("tumbling", dict(size=2, moo=2, al=0, maxts=6, maxev=5, cap=20000))]
         free = [("tumbling", dict(size=2, moo=1, al=2), 400, 60), ("sliding", dict(size=4, slide=2, moo=2, al=2), 300, 60),
                 ("tumbling", dict(size=3, moo=0, al=0), 200, 60), ("sliding", dict(size=3, slide=1, moo=1, al=0), 200, 50)]
-    return win.run_family("C02", tier, plan, free, ASSUME)
+    extra = [("tumbling", dict(size=2, moo=1, al=0, maxts=6, maxev=4, chancap=1)), ("sliding", dict(size=4, slide=2, moo=1, al=0, maxts=6, maxev=4, chancap=1))]
+    if tier != "quick":
+        extra += [("tumbling", dict(size=2, moo=0, al=1, maxts=6, maxev=4, chancap=1)), ("session", dict(size=2, moo=1, al=0, maxts=5, maxev=4, chancap=1))]
+    return win.run_family("C02", tier, plan, free, ASSUME, extra)
 
 
 if __name__ == "__main__":
